@@ -56,6 +56,46 @@ type Ctx struct {
 	Thorough   bool
 }
 
+// keyOwners: the operation lines are shared by several properties and carry embedded checks (typed error, zero result,
+// string/[]byte agreement, input not retained). An embedded check belongs to the properties whose statement makes that
+// promise; it fires — and changes the line's answer — only in the runs of those properties, so that the check of a
+// property that still holds stays quiet when a sibling property is broken. Keys not listed belong to the property
+// named by their prefix. (In `exec` mode, used for replays, every check fires.)
+var keyOwners = map[string][]string{
+	"C17.date.types":        {"C17", "C09", "C01"},
+	"C17.roman.types":       {"C17", "C10", "C02"},
+	"C17.roman.valid.types": {"C17", "C10", "C02"},
+	"C17.sem.types":         {"C17", "C03"},
+	"C17.sem.retain":        {"C17", "C03", "C14"},
+	"C17.sem.cmppre.types":  {"C17", "C06", "C14"},
+	"C17.sem.cmpstr.types":  {"C17", "C06", "C14"},
+	"C17.sem.latest.types":  {"C17", "C06", "C14"},
+	"C17.size.types":        {"C17", "C08", "C12", "C04"},
+	"C17.uu.types":          {"C17", "C05"},
+	"C12.typed":             {"C12", "C08"},
+	"C12.zero":              {"C12", "C08"},
+	"C12.entry":             {"C12", "C08", "C04"},
+	"C08.entry":             {"C08", "C04"},
+	"C09.entry":             {"C09", "C01"},
+	"C10.entry":             {"C10", "C02"},
+}
+
+// Owns reports whether an embedded check with this key belongs to the property being run.
+func (c *Ctx) Owns(key string) bool {
+	if c.Prop == "" {
+		return true
+	}
+	if o, ok := keyOwners[key]; ok {
+		for _, p := range o {
+			if p == c.Prop {
+				return true
+			}
+		}
+		return false
+	}
+	return strings.HasPrefix(key, c.Prop+".")
+}
+
 func NewCtx(prop, tier string, seed uint64, outdir string) *Ctx {
 	c := &Ctx{Prop: prop, Tier: tier, Seed: seed, R: &Rng{s: seed*0x2545F4914F6CDD1D + 0x1234567}, Dist: map[string]int64{},
 		FailCounts: map[string]int64{}, distinct: map[string]struct{}{}, Thorough: tier == "thorough", Fails: []Failure{}, Samples: []string{}, Notes: []string{}}
